@@ -6,26 +6,37 @@ stores' own locks are wrapped in SchedLock. After each schedule the per-call res
 balances of every store must be producible by SOME sequential order of the same calls (the set is
 computed by running every order-preserving merge on fresh real stores); a LINE-level hook asserts
 non-negative balances whenever no thread holds the store's lock; no runnable thread = deadlock.
+
+Round 3: the workloads also vary what used to be constant — aliased stores (a transfer whose recipient IS the sender,
+rings over three stores), degenerate / extreme configurations and amounts (0, 1, fractional, > 2**53, nan, inf, -0.0,
+negative, None), verbose stores (silent=False, stdout into a sink), user observers (on_state_change) that record, read
+the store back, or RAISE, read-only APIs interleaved into the threads (dropped from the sequential reference: a read
+must not change any outcome), unusual operation labels, stores carrying a > 1000-transaction history, and the
+statistics / transaction counters as part of the judged final state.
 """
-import itertools
+import contextlib
+import gc
 import sys
 import threading
+import traceback
 
 from rv import core, sched
-from rv.locks import wrap_all_locks
+from rv.locks import wrap_all_locks, DetectingLock, WouldHang
 
 PID = "C05"
 LEVEL = "exploration"
 TECHNIQUE = "runtime monitoring under a line-granularity controlled thread scheduler (preemption-bounded sweep + random/PCT schedules); outcomes checked for sequential equivalence, lock-free-point balance invariant, logical deadlock detection"
-RULE = ("workloads: 2-3 threads x 1-3 ops over 1-2 shared stores, ops from {consume (all currencies, debt), regenerate, convert, transfer A->B, "
-        "transfer B->A, reset}, balances chosen so that the outcome depends on the order; per workload: pb(1) sweep (quick) / pb(2) sample (thorough) + random(p) and "
-        "PCT schedules; plus free-running 8-thread stress histories checked by conservation; non-trivial schedule = >= 1 context switch while another thread is "
-        "inside a store method; distinct = hash of the (thread, function, line) trace")
+RULE = ("workloads: 2-3 threads x 1-3 ops over 1-3 shared stores, ops from {consume (all currencies, debt), regenerate, convert, transfer A->B, "
+        "transfer B->A, transfer A->A, reset, dormancy} plus interleaved read-only calls, balances chosen so that the outcome depends on the order; stores vary in "
+        "configuration (incl. degenerate values), verbosity and observer (none / recording / reading / raising); per workload: pb(1) sweep (quick) / pb(2) sample "
+        "(thorough) + random(p) and PCT schedules; plus free-running 8-thread stress histories checked by conservation and stores with a > 1000-transaction "
+        "history; non-trivial schedule = >= 1 context switch while another thread is inside a store method; distinct = hash of the (thread, function, line) trace")
 ASSUMPTIONS = ["transfer_to is two atomic steps of one thread (debit under the source lock, credit under the destination lock); cross-store atomicity is measured, not judged",
                "preemption at statement starts of ATP_Store methods and at lock operations only; bytecode-level preemption inside one statement is reached only by the free-running stress",
-               "sequential semantics of each call are those of the real code run alone (judged separately by C04)"]
-
-_INSTR = {"done": False}
+               "sequential semantics of each call are those of the real code run alone (judged separately by C04), including which exception a call raises for a "
+               "degenerate argument or from a raising observer: an exception is an outcome like any other and must be producible sequentially",
+               "read-only calls (get_*, repr) are not judged for the values they return (they are lock-free by design); they must not raise, hang, or change any outcome",
+               "the ORDER in which observers are notified is recorded, not judged; apply_debt_interest (unlocked, not among the statement's operations) is not run concurrently"]
 
 
 def setup_shard(ctx):
@@ -39,29 +50,112 @@ def plan(tier):
             "min_nontrivial": 2000, "timeout": 900 if tier == "quick" else 3000,
             "require": {"schedules": 8000, "yield_points": 300000, "lock_acquisitions": 50000,
                         "schedules_with_switch_inside": 2000, "sequential_outcome_sets": 40,
-                        "order_dependent_workloads": 15, "opposite_transfer_workloads": 5, "stress_runs": 2,
-                        "instrumented_code_objects": 8}}
+                        "order_dependent_workloads": 15, "opposite_transfer_workloads": 2, "stress_runs": 2,
+                        "instrumented_code_objects": 8,
+                        # round 3
+                        "self_transfer_workloads": 2, "self_transfers_executed": 300, "ring_workloads": 1,
+                        "verbose_store_workloads": 8, "observer_workloads": 8, "observer_notifications": 1500,
+                        "observer_raised": 150, "observer_snapshots": 150, "calls_that_raised": 150,
+                        "read_calls_executed": 1500, "degenerate_config_workloads": 4, "boundary_amount_workloads": 2,
+                        "long_history_runs": 1, "long_history_schedules": 30, "debt_race_workloads": 1,
+                        "schedules_ending_in_debt": 300}}
 
 
 CUR = ["ATP", "GTP", "NADH"]
+NAN = float("nan")
+BOUNDARY_AMOUNTS = [0, 0, -1, -3, 0.5, 0.1 + 0.2, 2 ** 53 + 1, float("inf"), NAN, -0.0, True, None, 10 ** 30]
+LABELS = ["w", "", None, "x" * 300]
+READS = ["get_balance", "get_debt", "get_state", "get_report", "get_statistics", "get_transactions", "repr"]
+STATES = ["starving", "conserving", "normal", "feasting"]
+READ_RESULT = repr("read")
+KINDS = ["mixed", "mixed", "mixed", "two_spends", "opposite_transfers", "spend_vs_transfer", "convert_vs_topup", "regen_vs_debit",
+         "self_transfer", "ring3", "raising_observer", "debt_race"]
+
+
+class ObserverFailed(Exception):
+    pass
+
+
+class SeqLock(DetectingLock):
+    """DetectingLock without the per-acquisition stack capture (the sequential phases take the lock ~10^6 times per run):
+    a thread that fails a non-blocking acquire on a lock it still owns can never proceed -> WouldHang, in zero time."""
+
+    def acquire(self, blocking=True, timeout=-1):
+        me = threading.get_ident()
+        if self.inner.acquire(False):
+            self.owner = me
+            self.depth += 1
+            self.acquisitions += 1
+            return True
+        if self.owner == me:
+            raise WouldHang(self.name, "an earlier call of this thread", ["%s:%d %s" % (f.filename.split("/")[-1], f.lineno, f.name)
+                                                                          for f in traceback.extract_stack()[:-1]][-6:])
+        if not blocking:
+            return False
+        ok = self.inner.acquire(True, timeout)
+        if ok:
+            self.owner = me
+            self.depth += 1
+            self.acquisitions += 1
+        return ok
+
+
+class _Sink:
+    def write(self, s):
+        return len(s)
+
+    def flush(self):
+        pass
+
+
+@contextlib.contextmanager
+def quiet():
+    """verbose stores print; their output goes to a sink (process-wide, restored afterwards)"""
+    old = sys.stdout
+    sys.stdout = _Sink()
+    try:
+        yield
+    finally:
+        sys.stdout = old
+
+
+def gen_cfg(rng):
+    c = {"budget": rng.choice([5, 10, 10, 20]), "gtp": rng.choice([0, 0, 5]), "nadh": rng.choice([0, 0, 4, 6]),
+         "max_debt": rng.choice([0, 0, 5, 10])}
+    if rng.random() < 0.12:
+        c["budget"] = rng.choice([0, 1, 1, 2.5, 10 ** 18, 2 ** 53 + 1])
+        c["degenerate"] = True
+    if rng.random() < 0.10:
+        c["max_debt"] = rng.choice([1, 10 ** 9, 2.5, None, -1])
+        c["degenerate"] = True
+    if rng.random() < 0.06:
+        c["nadh"] = rng.choice([1, 0.5, 10 ** 6])
+        c["gtp"] = rng.choice([1, 0.25, c["gtp"]])
+        c["degenerate"] = True
+    # sequential setup before the threads start: balances below capacity (so that regeneration/transfers-in are not
+    # no-ops at the cap), optionally a dormant store
+    c["pre"] = [(cur, rng.choice([0, 1, 2, 3])) for cur in CUR if rng.random() < 0.5]
+    c["dormant"] = rng.random() < 0.15
+    c["silent"] = rng.random() >= 0.3
+    r = rng.random()
+    if r < 0.55:
+        c["observer"] = None
+    elif r < 0.70:
+        c["observer"] = "record"
+    elif r < 0.85:
+        c["observer"] = "read"
+    else:
+        c["observer"] = "raise:" + ",".join(sorted(rng.sample(STATES, rng.choice([1, 2, 2, 3]))))
+    return c
 
 
 def gen_workload(rng):
-    from operon_ai.state.metabolism import EnergyType
-    nstores = rng.choice([1, 2, 2])
-    cfgs = []
-    for _ in range(nstores):
-        cfgs.append({"budget": rng.choice([5, 10, 10, 20]), "gtp": rng.choice([0, 0, 5]), "nadh": rng.choice([0, 0, 4, 6]),
-                     "max_debt": rng.choice([0, 0, 5, 10])})
-    for c in cfgs:
-        # sequential setup before the threads start: balances below capacity (so that regeneration/transfers-in are not
-        # no-ops at the cap), optionally a dormant store
-        c["pre"] = [(cur, rng.choice([0, 1, 2, 3])) for cur in CUR if rng.random() < 0.5]
-        c["dormant"] = rng.random() < 0.15
+    kind = rng.choice(KINDS)
+    nstores = 3 if kind == "ring3" else rng.choice([1, 2, 2])
+    cfgs = [gen_cfg(rng) for _ in range(nstores)]
     nthreads = rng.choice([2, 2, 3])
     threads = []
     steps = 0
-    kind = rng.choice(["mixed", "mixed", "two_spends", "opposite_transfers", "spend_vs_transfer", "convert_vs_topup", "regen_vs_debit"])
     for t in range(nthreads):
         ops = []
         for _ in range(rng.randint(1, 3)):
@@ -70,62 +164,179 @@ def gen_workload(rng):
             r = rng.random()
             if kind == "two_spends" or r < 0.45:
                 cur = rng.choice(["ATP", "ATP", "ATP", "GTP", "NADH"])
-                op = ("consume", s, rng.choice([bud // 2 + 1, bud, bud - 1, 3, 7, bud + 2]), cur, rng.random() < 0.4, rng.choice([0, 10, 10]))
+                amt = rng.choice([bud // 2 + 1, bud, bud - 1, 3, 7, bud + 2])
+                if rng.random() < 0.13:
+                    amt = rng.choice(BOUNDARY_AMOUNTS)
+                op = ("consume", s, amt, cur, rng.random() < 0.4, rng.choice([0, 10, 10, 10, 5, 4, 9]), rng.choice([0, 0, 0, 1, 2, 3]))
             elif r < 0.6:
-                op = ("regenerate", s, rng.choice([1, 3, bud]), rng.choice(CUR))
+                op = ("regenerate", s, rng.choice([1, 3, bud] + ([rng.choice(BOUNDARY_AMOUNTS)] if rng.random() < 0.1 else [])), rng.choice(CUR))
             elif r < 0.7:
-                op = ("convert", s, rng.choice([1, 2, 5]))
-            elif r < 0.95 and nstores == 2:
-                op = ("transfer", s, 1 - s, rng.choice([1, 3, bud // 2 + 1, bud]), rng.choice(["ATP", "ATP", "NADH", "GTP"]))
+                op = ("convert", s, rng.choice([1, 2, 5] + ([rng.choice(BOUNDARY_AMOUNTS)] if rng.random() < 0.1 else [])))
+            elif r < 0.95 and nstores >= 2:
+                dst = s if rng.random() < 0.12 else rng.choice([i for i in range(nstores) if i != s])
+                amt = rng.choice([1, 3, bud // 2 + 1, bud])
+                if rng.random() < 0.06:
+                    amt = rng.choice(BOUNDARY_AMOUNTS)
+                op = ("transfer", s, dst, amt, rng.choice(["ATP", "ATP", "NADH", "GTP"]))
+            elif r < 0.78:      # one store only: the recipient is the sender
+                op = ("transfer", s, s, rng.choice([1, 3, bud // 2 + 1, bud]), rng.choice(["ATP", "ATP", "NADH", "GTP"]))
             elif r < 0.96:
                 op = ("reset", s)
             elif r < 0.98:
                 op = (rng.choice(["dormant", "wake"]), s)
             else:
-                op = ("consume", s, 4, "ATP", True, 10)
+                op = ("consume", s, 4, "ATP", True, 10, 0)
             cost = 2 if op[0] == "transfer" else 1
             if steps + cost > 8:
                 break
             steps += cost
             ops.append(op)
         if not ops:
-            ops = [("consume", 0, 3, "ATP", False, 10)]
+            ops = [("consume", 0, 3, "ATP", False, 10, 0)]
             steps += 1
         threads.append(ops)
     if kind == "opposite_transfers" and nstores == 2:
         if rng.random() < 0.4:
             cfgs[0]["dormant"] = cfgs[1]["dormant"] = True
         threads = [[("transfer", 0, 1, cfgs[0]["budget"] // 2 + 1, "ATP")], [("transfer", 1, 0, cfgs[1]["budget"] // 2 + 1, "ATP")]] + \
-                  ([[("consume", 0, cfgs[0]["budget"], "ATP", False, 10)]] if nthreads == 3 else [])
+                  ([[("consume", 0, cfgs[0]["budget"], "ATP", False, 10, 0)]] if nthreads == 3 else [])
     if kind == "spend_vs_transfer" and nstores == 2:
-        threads = [[("consume", 0, cfgs[0]["budget"] - 1, "ATP", False, 10)], [("transfer", 0, 1, 3, "ATP"), ("transfer", 1, 0, 2, "ATP")]]
+        threads = [[("consume", 0, cfgs[0]["budget"] - 1, "ATP", False, 10, 0)], [("transfer", 0, 1, 3, "ATP"), ("transfer", 1, 0, 2, "ATP")]]
     if kind == "regen_vs_debit":
         cur = rng.choice(CUR)
         cfgs[0].update(budget=10, gtp=6, nadh=6)
         cfgs[0]["pre"] = [(cur, 4)]
         cfgs[0]["dormant"] = False
-        debit = rng.choice([("consume", 0, 2, cur, False, 10), ("convert", 0, 2), ("consume", 0, 8, "ATP", False, 10)] +
+        debit = rng.choice([("consume", 0, 2, cur, False, 10, 0), ("convert", 0, 2), ("consume", 0, 8, "ATP", False, 10, 0)] +
                            ([("transfer", 0, 1, 2, cur)] if nstores == 2 else []))
         threads = [[("regenerate", 0, rng.choice([1, 3]), cur)], [debit]] + ([[("regenerate", 0, 1, cur)]] if nthreads == 3 else [])
     if kind == "convert_vs_topup":
         cfgs[0]["nadh"] = 6
-        threads = [[("convert", 0, 4)], [("consume", 0, cfgs[0]["budget"] + 3, "ATP", True, 10)], [("consume", 0, 5, "NADH", False, 10)]][:max(2, nthreads)]
+        threads = [[("convert", 0, 4)], [("consume", 0, cfgs[0]["budget"] + 3, "ATP", True, 10, 0)], [("consume", 0, 5, "NADH", False, 10, 0)]][:max(2, nthreads)]
+    if kind == "self_transfer":
+        # the recipient IS the sender: debit, release, re-credit; racing a spend / an outgoing transfer / another self-transfer
+        cur = rng.choice(["ATP", "ATP", "GTP", "NADH"])
+        cfgs[0].update(budget=10, gtp=6, nadh=6)
+        cfgs[0]["pre"] = [(cur, rng.choice([0, 2]))]
+        a = rng.choice([1, 3, 6, 20])
+        rival = rng.choice([("consume", 0, rng.choice([4, 6, 9]), cur, False, 10, 0), ("transfer", 0, 0, rng.choice([2, 5]), cur),
+                            ("regenerate", 0, 2, cur)] + ([("transfer", 0, 1, 5, cur), ("transfer", 1, 0, 2, cur)] if nstores == 2 else []))
+        threads = [[("transfer", 0, 0, a, cur)] + ([("consume", 0, 1, cur, False, 10, 0)] if rng.random() < 0.5 else []), [rival]] + \
+                  ([[("transfer", nstores - 1, nstores - 1, 1, "ATP")]] if nthreads == 3 else [])
+    if kind == "ring3":
+        amt = [cfgs[i]["budget"] // 2 + 1 for i in range(3)]
+        d = rng.choice([1, 2])
+        threads = [[("transfer", i, (i + d) % 3, amt[i], "ATP")] for i in range(3)]
+        if rng.random() < 0.5:
+            threads[0].append(("consume", 1, 2, "ATP", False, 10, 0))
+    if kind == "raising_observer":
+        # state changes are certain and the observer raises on them: the call raises where the unchanged code lets it, the
+        # lock must be free afterwards, the bookkeeping done, later calls (same and other threads) still return
+        cfgs[0].update(budget=10, gtp=0, max_debt=rng.choice([0, 5]))
+        cfgs[0]["pre"] = []
+        cfgs[0]["dormant"] = False
+        cfgs[0]["observer"] = "raise:" + ",".join(sorted(rng.sample(STATES, rng.choice([2, 3, 4]))))
+        threads = [[("consume", 0, rng.choice([6, 8, 9]), "ATP", False, 10, 0), ("regenerate", 0, rng.choice([3, 9]), "ATP")],
+                   [("consume", 0, rng.choice([2, 4, 8]), "ATP", rng.random() < 0.5, 10, 0), ("consume", 0, 1, "ATP", False, rng.choice([0, 5, 10]), 0)]]
+        if nstores == 2:
+            threads[1][1] = ("transfer", 1, 0, rng.choice([2, 5]), "ATP")
+        if nthreads == 3:
+            threads.append([("wake", 0), ("reset", 0)])
+    if kind == "debt_race":
+        # debt-financed spends (and a debt repayment) racing for one borrowing allowance
+        md = rng.choice([1, 5, 10])
+        left = rng.choice([0, 2, 4])
+        cfgs[0].update(budget=10, nadh=rng.choice([0, 0, 2]), max_debt=md)
+        cfgs[0]["pre"] = [("ATP", 10 - left)]
+        cfgs[0]["dormant"] = False
+        d = [rng.choice([1, md // 2 + 1, md]) for _ in range(3)]
+        cur = rng.choice(["ATP", "ATP", "ATP", "GTP"])
+        have = left + cfgs[0]["nadh"] if cur == "ATP" else cfgs[0]["gtp"]
+        threads = [[("consume", 0, have + d[0], cur, True, rng.choice([5, 10]), 0)],
+                   [("consume", 0, have + d[1], cur, True, 10, 0)] + ([("regenerate", 0, rng.choice([1, md]), "ATP")] if rng.random() < 0.4 else [])]
+        if nthreads == 3:
+            threads.append([rng.choice([("consume", 0, d[2], cur, True, 10, 0), ("regenerate", 0, d[2], "ATP"), ("consume", 0, have + d[2], cur, False, 10, 0)])])
+    # read-only calls sprinkled into the threads (not part of the sequential reference)
+    for ops in threads:
+        if rng.random() < 0.35:
+            for _ in range(rng.choice([1, 1, 2])):
+                ops.insert(rng.randrange(len(ops) + 1), ("read", rng.randrange(nstores), rng.choice(READS)))
     return cfgs, threads
 
 
+def make_observer(spec, holder, events, bad):
+    from operon_ai.state.metabolism import EnergyType
+    if spec is None:
+        return None
+    raise_on = set(spec[6:].split(",")) if spec.startswith("raise:") else set()
+
+    def observer(state):
+        name = getattr(state, "value", state)
+        events.append(name)
+        if spec == "read" and holder:
+            s = holder[0]
+            s.get_statistics()
+            s.get_report()
+            vals = [s.get_balance(t) for t in EnergyType] + [s.get_debt()]
+            events.append("snapshot")
+            if any(isinstance(v, (int, float)) and v < 0 for v in vals):
+                bad.append("observer notified of %s sees balances/debt %r" % (name, vals))
+        if name in raise_on:
+            events.append("raised")
+            raise ObserverFailed("observer failed on %s" % name)
+    return observer
+
+
 def make_stores(cfgs, wrap):
-    from operon_ai.state.metabolism import ATP_Store
+    from operon_ai.state.metabolism import ATP_Store, EnergyType
     stores = []
     for i, c in enumerate(cfgs):
-        s = ATP_Store(c["budget"], gtp_budget=c["gtp"], nadh_reserve=c["nadh"], max_debt=c["max_debt"], silent=True)
-        from operon_ai.state.metabolism import EnergyType
+        holder, events, bad = [], [], []
+        s = ATP_Store(c["budget"], gtp_budget=c["gtp"], nadh_reserve=c["nadh"], max_debt=c["max_debt"], silent=c.get("silent", True),
+                      on_state_change=make_observer(c.get("observer"), holder, events, bad))
+        holder.append(s)
+        # the sequential phases (setup here, the reference replays) run on the calling thread: a lock that one call leaves
+        # held makes the next call hang; DetectingLock decides that at the lock instead of blocking the harness
+        det = wrap_all_locks(s, SeqLock, "store%d" % i)
         for cur, amt in c.get("pre", []):
-            s.consume(amt, "setup", EnergyType[cur], priority=10)
+            try:
+                s.consume(amt, "setup", EnergyType[cur], priority=10)
+            except Exception:
+                pass        # a raising observer / degenerate configuration: the same happens in every replay
+        for _ in range(c.get("history", 0)):
+            s.consume(0, "history", priority=10)
         if c.get("dormant"):
             s.enter_dormancy()
-        s._rv_locks = wrap_all_locks(s, sched.SchedLock, "store%d" % i) if wrap else []
+        del events[:]
+        s._rv_events, s._rv_bad, s._rv_holder = events, bad, holder
+        s._rv_locks = det
+        if wrap:
+            s._rv_locks = []
+            for w in det:
+                sl = sched.SchedLock(w.inner, w.name)
+                setattr(s, w.name.split(".", 1)[1], sl)
+                s._rv_locks.append(sl)
         stores.append(s)
     return stores
+
+
+def dispose(stores):
+    """Break the store <-> observer reference cycle so that the stores are freed by reference counting on the calling thread.
+    (ATP_Store.__del__ is instrumented code: a cyclic collection that happens to run inside a scheduled thread would add
+    yield points there, even after the thread has finished its calls.)"""
+    for s in stores:
+        del s._rv_holder[:]
+
+
+@contextlib.contextmanager
+def no_cyclic_gc():
+    was = gc.isenabled()
+    gc.disable()
+    try:
+        yield
+    finally:
+        if was:
+            gc.enable()
 
 
 def apply_op(stores, op, sink=None):
@@ -134,7 +345,7 @@ def apply_op(stores, op, sink=None):
     ET = {"ATP": EnergyType.ATP, "GTP": EnergyType.GTP, "NADH": EnergyType.NADH}
     k = op[0]
     if k == "consume":
-        return stores[op[1]].consume(op[2], "w", ET[op[3]], allow_debt=op[4], priority=op[5])
+        return stores[op[1]].consume(op[2], LABELS[op[6]], ET[op[3]], allow_debt=op[4], priority=op[5])
     if k == "regenerate":
         return stores[op[1]].regenerate(op[2], ET[op[3]])
     if k == "convert":
@@ -151,16 +362,53 @@ def apply_op(stores, op, sink=None):
         return stores[op[1]].transfer_to(sink, op[3], ET[op[4]])
     if k == "credit":     # second atomic step
         return stores[op[2]].regenerate(op[3], ET[op[4]])
+    if k == "read":
+        s, w = stores[op[1]], op[2]
+        if w == "repr":
+            repr(s)
+        elif w == "get_balance":
+            for t in ET.values():
+                s.get_balance(t)
+        elif w == "get_transactions":
+            s.get_transactions(5)
+            s.get_transactions()
+        else:
+            getattr(s, w)()
+        return "read"
     raise ValueError(k)
 
 
+def run_op(stores, op, sink=None):
+    """result of one call as a string; an exception the call raises is an outcome like any other"""
+    try:
+        return repr(apply_op(stores, op, sink))
+    except Exception as e:  # noqa
+        return "raise:" + type(e).__name__
+
+
+def _norm(v):
+    return repr(v) if isinstance(v, float) else v
+
+
+STAT_KEYS = ("total_consumed", "total_regenerated", "operations_count", "failed_operations")
+
+
 def final_state(stores):
-    return tuple((s.atp, s.gtp, s.nadh, s.get_debt(), s.get_state().value) for s in stores)
+    out = []
+    for s in stores:
+        st = s.get_statistics()
+        out.append((_norm(s.atp), _norm(s.gtp), _norm(s.nadh), _norm(s.get_debt()), s.get_state().value) +
+                   tuple(_norm(st.get(k)) for k in STAT_KEYS) + (len(s.get_transactions(10 ** 9)),))
+    return tuple(out)
+
+
+def has_negative(stores):
+    return any(isinstance(v, (int, float)) and v < 0 for s in stores for v in (s.atp, s.gtp, s.nadh))
 
 
 def sequential_outcomes(cfgs, threads, cap=4000):
-    """All outcomes (results per thread in program order, final balances) of order-preserving merges, transfers split
-    into their two atomic steps, executed sequentially on fresh REAL stores."""
+    """All outcomes (results per thread in program order, final balances + statistics) of order-preserving merges, transfers
+    split into their two atomic steps, executed sequentially on fresh REAL stores. Read-only calls are left out."""
     from operon_ai.state.metabolism import ATP_Store
     atomic = []
     for ops in threads:
@@ -169,7 +417,7 @@ def sequential_outcomes(cfgs, threads, cap=4000):
             if op[0] == "transfer":
                 seq.append(("debit",) + op[1:] + (oi,))
                 seq.append(("credit",) + op[1:] + (oi,))
-            else:
+            elif op[0] != "read":
                 seq.append(op + (oi,))
         atomic.append(seq)
     outcomes = set()
@@ -190,11 +438,11 @@ def sequential_outcomes(cfgs, threads, cap=4000):
         count[0] += 1
         if count[0] > cap:
             return None
-        stores = make_stores(cfgs, wrap=False)
+        stores = make_stores([dict(c, silent=True) for c in cfgs], wrap=False)
         sink = ATP_Store(0, silent=True)
-        sink.max_atp = sink.max_gtp = sink.max_nadh = 10 ** 9
+        sink.max_atp = sink.max_gtp = sink.max_nadh = 10 ** 40
         pos = [0] * len(atomic)
-        results = [[None] * len(ops) for ops in threads]
+        results = [[READ_RESULT if op[0] == "read" else None for op in ops] for ops in threads]
         skip_credit = set()
         for t in order:
             a = atomic[t][pos[t]]
@@ -202,39 +450,63 @@ def sequential_outcomes(cfgs, threads, cap=4000):
             oi = a[-1]
             op = a[:-1]
             if op[0] == "debit":
-                r = apply_op(stores, op, sink)
+                r = run_op(stores, op, sink)
                 results[t][oi] = r
-                if not r:
+                if r != "True":
                     skip_credit.add((t, oi))
             elif op[0] == "credit":
                 if (t, oi) not in skip_credit:
-                    apply_op(stores, op)
+                    r = run_op(stores, op)
+                    if r.startswith("raise:"):
+                        results[t][oi] = r
             else:
-                results[t][oi] = apply_op(stores, op)
-        outcomes.add((tuple(tuple(map(repr, r)) for r in results), final_state(stores)))
+                results[t][oi] = run_op(stores, op)
+        outcomes.add((tuple(tuple(r) for r in results), final_state(stores)))
+        dispose(stores)
     return outcomes
 
 
 def run_schedule(ctx, cfgs, threads, policy, label, seqset, desc):
-    stores = make_stores(cfgs, wrap=True)
+    with quiet():
+        stores = make_stores(cfgs, wrap=True)
     bad = []
 
     def hook(sc, me, fn, line):
         for i, s in enumerate(stores):
-            if all(l.depth == 0 for l in s._rv_locks) and (s.atp < 0 or s.gtp < 0 or s.nadh < 0):
+            if all(l.depth == 0 for l in s._rv_locks) and has_negative([s]):
                 bad.append("store%d atp=%r gtp=%r nadh=%r seen at %s:%d while its lock is free" % (i, s.atp, s.gtp, s.nadh, fn, line))
 
     def mk(ops):
         def run():
-            return tuple(repr(apply_op(stores, op)) for op in ops)
+            return tuple(run_op(stores, op) for op in ops)
         return run
 
     sc = sched.Scheduler(policy, watchdog_s=30.0)
     sc.hooks.append(hook)
-    sc.run([mk(ops) for ops in threads])
+    with quiet(), no_cyclic_gc():
+        sc.run([mk(ops) for ops in threads])
+    try:
+        return judge_schedule(ctx, sc, stores, bad, cfgs, threads, label, seqset, desc)
+    finally:
+        dispose(stores)
+
+
+def judge_schedule(ctx, sc, stores, bad, cfgs, threads, label, seqset, desc):
     ctx.count("schedules")
     ctx.count("yield_points", sc.step)
     ctx.count("lock_acquisitions", sum(l.acquisitions for s in stores for l in s._rv_locks))
+    for s in stores:
+        ev = s._rv_events
+        ctx.count("observer_notifications", sum(1 for e in ev if e not in ("raised", "snapshot")))
+        ctx.count("observer_raised", ev.count("raised"))
+        ctx.count("observer_snapshots", ev.count("snapshot"))
+        bad.extend(s._rv_bad)
+    done = [r for res in sc.results if res for r in res]
+    ctx.count("calls_that_raised", sum(1 for r in done if r.startswith("raise:")))
+    ctx.count("read_calls_executed", sum(1 for r in done if r == READ_RESULT))
+    if any(isinstance(s.get_debt(), (int, float)) and s.get_debt() > 0 for s in stores):
+        ctx.count("schedules_ending_in_debt")
+    ctx.count("self_transfers_executed", sum(1 for ops, res in zip(threads, sc.results) if res for op in ops if op[0] == "transfer" and op[1] == op[2]))
     if sc.switch_while_other_inside:
         ctx.count("schedules_with_switch_inside")
         ctx.nontrivial(sc.trace_hash())
@@ -242,6 +514,8 @@ def run_schedule(ctx, cfgs, threads, policy, label, seqset, desc):
     wit = dict(desc, policy=label, choices=sc.choices[:400])
     if sc.stuck:
         ctx.inconclusive("a schedule hit the wall-clock watchdog (not a verdict)")
+        if len(ctx.notes) < 5:
+            ctx.notes.append("watchdog: case %r policy %s step %d blocked %r done %r" % (ctx.case, label, sc.step, sorted(sc.blocked), sc.done))
         return sc
     if sc.deadlock:
         ctx.violation("deadlock", "deadlock observed: %s" % sc.deadlock, wit)
@@ -255,20 +529,62 @@ def run_schedule(ctx, cfgs, threads, policy, label, seqset, desc):
         return sc
     outcome = (tuple(sc.results), final_state(stores))
     if seqset is not None and outcome not in seqset:
-        neg = any(v < 0 for st in outcome[1] for v in st[:4])
+        w = dict(wit, sequential_outcomes=sorted(seqset, key=repr)[:6])
+        # an exception no sequential order produces at that position
+        for t, res in enumerate(outcome[0]):
+            for oi, r in enumerate(res):
+                if r.startswith("raise:") and not any(o[0][t][oi] == r for o in seqset):
+                    ctx.violation("raises-under-threads", "thread %d call %d %r ended with %s, which no sequential order of the calls produces" % (
+                        t, oi, threads[t][oi], r), w)
+                    return sc
+        neg = has_negative(stores)
         ctx.violation("not-sequentially-equivalent",
-                      "results %s / final balances %s are not producible by any sequential order of the calls%s" % (
-                          outcome[0], outcome[1], " (negative balance)" if neg else ""),
-                      dict(wit, sequential_outcomes=sorted(seqset)[:6]))
+                      "results %s / final balances+statistics %s are not producible by any sequential order of the calls%s" % (
+                          outcome[0], outcome[1], " (negative balance)" if neg else ""), w)
     return sc
+
+
+def classify(ctx, cfgs, threads):
+    tr = [op for ops in threads for op in ops if op[0] == "transfer"]
+    if any(a[1] == b[2] and a[2] == b[1] and a[1] != a[2] for a in tr for b in tr if a is not b):
+        ctx.count("opposite_transfer_workloads")
+    if any(a[1] == a[2] for a in tr):
+        ctx.count("self_transfer_workloads")
+    if len(cfgs) >= 3 and len({(a[1], a[2]) for a in tr if a[1] != a[2]}) >= 3:
+        ctx.count("ring_workloads")
+    if any(not c.get("silent", True) for c in cfgs):
+        ctx.count("verbose_store_workloads")
+    if any(c.get("observer") for c in cfgs):
+        ctx.count("observer_workloads")
+    if any(c.get("degenerate") for c in cfgs):
+        ctx.count("degenerate_config_workloads")
+    if len(cfgs) >= 2 and any(cfgs[0].get(k) != c.get(k) for c in cfgs[1:] for k in ("budget", "gtp", "nadh", "max_debt", "silent", "observer")):
+        ctx.count("workloads_with_differently_configured_stores")
+    if sum(1 for ops in threads if any(op[0] == "consume" and op[4] for op in ops)) >= 2:
+        ctx.count("debt_race_workloads")
+    amounts = [op[2] for ops in threads for op in ops if op[0] in ("consume", "regenerate", "convert")] + [op[3] for op in tr]
+    if any(a is None or isinstance(a, (float, bool)) or a <= 0 or a > 2 ** 53 for a in amounts):
+        ctx.count("boundary_amount_workloads")
 
 
 def run_case(ctx, n):
     rng = ctx.rng(n)
     if n % 40 == 7:
         return stress_case(ctx, n, rng)
+    desc = {}
+    try:
+        if n % 40 == 27:
+            return long_history_case(ctx, n, rng, desc)
+        return scheduled_case(ctx, n, rng, desc)
+    except WouldHang as e:
+        ctx.count("sequential_replays_that_would_hang")
+        ctx.violation("deadlock", "calls made one after another by ONE thread (setup / sequential replay): a call re-acquires %s, which an earlier call "
+                      "of the same thread left held (first taken at %s, again at %s)" % (e.lock_name, e.first_stack, e.second_stack), dict(desc, sequential=True))
+
+
+def scheduled_case(ctx, n, rng, desc):
     cfgs, threads = gen_workload(rng)
-    desc = {"stores": cfgs, "threads": threads}
+    desc.update({"stores": cfgs, "threads": threads})
     seqset = sequential_outcomes(cfgs, threads)
     if seqset is None:
         ctx.count("workloads_too_large_for_sequential_enumeration")
@@ -276,9 +592,7 @@ def run_case(ctx, n):
     ctx.count("sequential_outcome_sets")
     if len(seqset) > 1:
         ctx.count("order_dependent_workloads")
-    tr = [op for ops in threads for op in ops if op[0] == "transfer"]
-    if any(a[1] == b[2] and a[2] == b[1] for a in tr for b in tr if a is not b):
-        ctx.count("opposite_transfer_workloads")
+    classify(ctx, cfgs, threads)
     nthreads = len(threads)
     # baseline (non-preemptive) to learn the horizon
     base = run_schedule(ctx, cfgs, threads, sched.PreemptionPolicy({}), "pb(0)", seqset, desc)
@@ -309,20 +623,70 @@ def run_case(ctx, n):
         ctx.sample({"workload": desc, "sequential_outcomes": len(seqset), "baseline_yield_points": N})
 
 
+def long_history_case(ctx, n, rng, desc):
+    """Stores that already carry a transaction history around the audit log's bound (so the log is truncated / rebuilt while
+    the threads run) and large lifetime counters; few schedules each, same oracle."""
+    thorough = ctx.tier == "thorough"
+    nstores = rng.choice([1, 2])
+    cfgs = []
+    for _ in range(nstores):
+        cfgs.append({"budget": rng.choice([10, 20]), "gtp": 5, "nadh": rng.choice([0, 4]), "max_debt": rng.choice([0, 5]), "pre": [("ATP", 2)],
+                     "dormant": False, "silent": rng.random() < 0.7, "observer": rng.choice([None, None, "record"]),
+                     "history": rng.choice([996, 998, 999, 1000, 1003] + ([2500] if thorough else []))})
+    threads = []
+    for t in range(2):
+        ops = []
+        for _ in range(rng.choice([1, 2])):
+            s = rng.randrange(nstores)
+            bud = cfgs[s]["budget"]
+            r = rng.random()
+            if r < 0.6:
+                ops.append(("consume", s, rng.choice([bud // 2 + 1, bud - 3, 3, bud + 5]), rng.choice(["ATP", "ATP", "GTP"]), rng.random() < 0.3, 10, 0))
+            elif r < 0.75:
+                ops.append(("regenerate", s, 3, "ATP"))
+            elif r < 0.95:
+                ops.append(("transfer", s, rng.randrange(nstores), rng.choice([2, bud // 2 + 1]), "ATP"))
+            else:
+                ops.append(("reset", s))
+        threads.append(ops)
+    if rng.random() < 0.5:
+        threads[rng.randrange(2)].append(("read", rng.randrange(nstores), rng.choice(["get_transactions", "get_report", "get_statistics"])))
+    desc.update({"stores": cfgs, "threads": threads, "long_history": True})
+    seqset = sequential_outcomes(cfgs, threads)
+    if seqset is None:
+        return
+    ctx.count("long_history_runs")
+    ctx.count("sequential_outcome_sets")
+    base = run_schedule(ctx, cfgs, threads, sched.PreemptionPolicy({}), "pb(0)", seqset, desc)
+    N = max(base.step, 1)
+    k = 30 if not thorough else 80
+    combos = [(s, t) for s in range(1, N + 1) for t in range(2)]
+    for (s, t) in rng.sample(combos, min(k, len(combos))):
+        run_schedule(ctx, cfgs, threads, sched.PreemptionPolicy({s: t}), "pb(1)@%d->%d" % (s, t), seqset, desc)
+    for i in range(k):
+        run_schedule(ctx, cfgs, threads, sched.RandomPolicy(rng, (0.1, 0.3, 0.6)[i % 3]), "random", seqset, desc)
+    ctx.count("long_history_schedules", 1 + min(k, len(combos)) + k)
+
+
 def stress_case(ctx, n, rng):
-    """Free-running threads (no scheduler), tiny switch interval: cheap reach into bytecode-level preemption; conservation oracle."""
+    """Free-running threads (no scheduler), tiny switch interval: cheap reach into bytecode-level preemption and a long history
+    (> 20 000 operations on two differently configured instances); conservation oracle. A lock taken twice by one thread is
+    decided at the lock (DetectingLock), never by waiting."""
     from operon_ai.state.metabolism import ATP_Store
     old = sys.getswitchinterval()
     sys.setswitchinterval(1e-6)
     try:
-        A, B = ATP_Store(10 ** 6, silent=True), ATP_Store(10 ** 6, silent=True)
+        A, B = ATP_Store(10 ** 6, silent=True), ATP_Store(3 * 10 ** 6, gtp_budget=7, nadh_reserve=0, max_debt=5, silent=True)
         A.consume(500000)
-        B.consume(500000)      # headroom so that regeneration never clamps
+        B.consume(1500000)      # headroom so that regeneration never clamps
         stores = [A, B]
+        for i, s in enumerate(stores):
+            wrap_all_locks(s, SeqLock, "stress%d" % i)
+        start = A.atp + B.atp
         spent = [0] * 8
         regen = [0] * 8
         errors = []
-        nops = 1500 if ctx.tier == "quick" else 6000
+        nops = 2600 if ctx.tier == "quick" else 6000
 
         def worker(i):
             r = ctx.rng(n, "w", i)
@@ -337,22 +701,34 @@ def stress_case(ctx, n, rng):
                     elif k < 0.8:
                         s.regenerate(c)
                         regen[i] += c
-                    else:
+                    elif k < 0.97:
                         s.transfer_to(stores[1 - stores.index(s)], c)
+                    elif k < 0.99:
+                        s.transfer_to(s, c)
+                    else:
+                        s.get_report()
+                        s.get_statistics()
             except BaseException as e:
                 errors.append(e)
 
-        ths = [threading.Thread(target=worker, args=(i,)) for i in range(8)]
+        ths = [threading.Thread(target=worker, args=(i,), daemon=True) for i in range(8)]
         for t in ths:
             t.start()
         for t in ths:
-            t.join(120)
+            t.join(240)
         ctx.count("stress_runs")
         ctx.count("stress_operations", 8 * nops)
+        hung = [e for e in errors if isinstance(e, WouldHang)]
+        if any(t.is_alive() for t in ths) and not hung:
+            ctx.inconclusive("free-running stress threads still alive after the join timeout (not a verdict)")
+            return
         total = A.atp + B.atp
-        want = 10 ** 6 - sum(spent) + sum(regen)
+        want = start - sum(spent) + sum(regen)
         w = {"stress": True, "ops_per_thread": nops, "final": [A.atp, B.atp], "expected_total": want}
-        if errors:
+        if hung:
+            ctx.violation("deadlock", "free-running stress: a thread acquires a non-reentrant lock it already holds (%s): %s / %s" % (
+                hung[0].lock_name, hung[0].first_stack, hung[0].second_stack), w)
+        elif errors:
             ctx.violation("raises-under-threads", "free-running stress: %r" % (errors[0],), w)
         elif A.atp < 0 or B.atp < 0:
             ctx.violation("negative-balance-visible", "free-running stress ended with a negative balance", w)
